@@ -24,16 +24,26 @@ def r1_truth_tables(ctx):
         return
     paths = [(p, d) for p, o, d in fn_paths(ctx, f) if o == 'return']
     by_variant = {}
+    adt = ctx.P.adts.get(LIM) or {}
+    all_vars = [v['n'] for v in adt.get('variants', [])]
+    A_COUNT, A_TIME = ('arg', f.local_name(2)), ('arg', f.local_name(3))
     for p, d in paths:
         atoms = [a for _, a in path_atoms(f, p, d)]
-        var = next((a[2] for a in atoms if a[0] == 'is' and a[1] in (('arg', 'self'),)), None)
-        by_variant.setdefault(var, []).append((p, d, atoms))
+        possible = set(all_vars)
+        for a in atoms:
+            if a[1] == ('arg', 'self'):
+                if a[0] == 'is':
+                    possible &= {a[2]}
+                elif a[0] == 'isnot':
+                    possible -= set(a[2])
+        for var in sorted(possible):
+            by_variant.setdefault(var, []).append((p, d, atoms))
     ctx.floor('variants handled by RuntimeLimit::applies', len([v for v in by_variant if v]), 5)
     # None
     for p, d, atoms in by_variant.get('None', []):
         ctx.check(path_ret(f, p) == ('int', 0), 'table-None', 'RuntimeLimit::None never applies', f.where_path(p))
     # EventCount / SimTime
-    for var, argname in (('EventCount', 'itr_count'), ('SimTime', 'time')):
+    for var, argname in (('EventCount', A_COUNT[1]), ('SimTime', A_TIME[1])):
         for p, d, atoms in by_variant.get(var, []):
             r = path_ret(f, p)
             a = atom_of(r, ('eq', 1))
@@ -64,7 +74,7 @@ def r1_truth_tables(ctx):
                 for a in atoms:
                     if a[0] == 'bool' and a[1][0] == 'call' and a[1][1] == LIM + '::applies':
                         which = _operand_index(a[1][2][0], var)
-                        args_ok = a[1][2][1] == ('arg', 'itr_count') and a[1][2][2] == ('arg', 'time')
+                        args_ok = a[1][2][1] == A_COUNT and a[1][2][2] == A_TIME
                         if which is None or not args_ok:
                             operands_ok = False
                         val = L if which == 0 else R
@@ -77,7 +87,7 @@ def r1_truth_tables(ctx):
                     results.add(bool(r[1]))
                 elif r[0] == 'call' and r[1] == LIM + '::applies':
                     which = _operand_index(canon(r[2][0]), var)
-                    if which is None or canon(r[2][1]) != ('arg', 'itr_count') or canon(r[2][2]) != ('arg', 'time'):
+                    if which is None or canon(r[2][1]) != A_COUNT or canon(r[2][2]) != A_TIME:
                         operands_ok = False
                     results.add(L if which == 0 else R)
                 else:
@@ -137,6 +147,34 @@ def r3_finish(ctx, cfg='A'):
         ctx.violation('anchor:finish', 'unresolved-anchor'); return
     ctx.touch(f)
     n = 0
+    # equivalent drain form: remaining.extend(iter::from_fn(|| if set.is_empty() { None } else { Some(set.fetch_next()) }))
+    drains = []
+    for s in f.calls():
+        if (s.callee or '') != 'std::iter::Extend::extend' or len(s.args) != 2:
+            continue
+        src = peel(f.expr_operand(s.args[1], s.b, 'T'))
+        if not (src[0] == 'call' and src[1].endswith('iter::from_fn') and src[2]):
+            continue
+        cl = peel(src[2][0])
+        g = P.fns.get(cl[1][len('closure:'):]) if cl[0] == 'agg' and str(cl[1]).startswith('closure:') else None
+        if g is None:
+            continue
+        good = True
+        np_ = 0
+        for gp, go, gd in fn_paths(ctx, g):
+            if go != 'return':
+                continue
+            np_ += 1
+            emp = [o for _, o in call_outcomes(g, gp, gd, _fes(cfg) + '::is_empty')]
+            rv = path_ret(g, gp)
+            if rv is not None and rv[0] == 'agg' and rv[1].endswith('Option::None'):
+                good = good and emp[-1:] == [True]
+            elif rv is not None and rv[0] == 'agg' and rv[1].endswith('Option::Some'):
+                good = good and emp[-1:] == [False] and peel(rv[2][0])[0] == 'call' and peel(rv[2][0])[1] == _fes(cfg) + '::fetch_next'
+            else:
+                good = False
+        if good and np_ >= 2 and any(x[0] == 'field' and x[2] == 'remaining' for x in walk(f.expr_operand(s.args[0], s.b, 'T'))):
+            drains.append(s)
     for path, outcome, decs in fn_paths(ctx, f):
         if outcome != 'return':
             continue
@@ -147,6 +185,8 @@ def r3_finish(ctx, cfg='A'):
         n += 1
         outs = call_outcomes(f, path, decs, _fes(cfg) + '::is_empty')
         last = outs[-1][1] if outs else None
+        if any(s.b in path for s in drains):
+            last = True   # the drain call returns only once the closure has seen the set empty
         ctx.check(last is True, 'finish-observes-empty',
                   'every successful return of finish has observed the event set empty (events beyond the stopping point are returned as remaining, none is lost)',
                   f.where_path(path), {'is_empty_observations': [str(o[1]) for o in outs]})
@@ -154,10 +194,12 @@ def r3_finish(ctx, cfg='A'):
         tup = r[2][0]
         tm = peel(tup[2][1]) if tup[0] == 'agg' and len(tup[2]) > 1 else None
         ctx.check(tm is not None and tm[0] == 'call' and tm[1] == RT + '::sim_time', 'end-time-is-clock', 'the reported end time is the simulation clock (time of the last dispatched event)', f.where_path(path), show(tm) if tm else None)
-    ctx.floor('successful returns of finish', n, 3)
+    ctx.floor('successful returns of finish', n, 2)
     # drain loop: fetch_next result is pushed
     fetch = f.calls_to(_fes(cfg) + '::fetch_next')
-    if ctx.floor('fetch_next in finish', len(fetch), 1):
+    if drains and not fetch:
+        ctx.ok('finish drains the event set into `remaining` through extend(from_fn(..)): every fetched frame is recorded until the set is empty', drains[0].where())
+    elif ctx.floor('fetch_next in finish', len(fetch), 1):
         s = fetch[0]
         pushes = [x for x in f.calls() if x.name == 'std::vec::Vec::push' and any(y[0] == 'call' and y[1] == _fes(cfg) + '::fetch_next' for y in walk(f.expr_operand(x.args[1], x.b, 'T')))]
         ctx.check(bool(pushes) and bool(f.loops_containing(s.b)) and any(x[0] == 'field' and x[2] == 'remaining' for p in pushes for x in walk(f.expr_operand(p.args[0], p.b, 'T'))),
@@ -204,15 +246,17 @@ def r4_builder_composition(ctx):
             stores = [e for e in effs if e[0] == 'w' or (e[0] == 'c' and False)]
             # the value finally stored into *self
             val = None
-            for b in path:
+            for idx, b in enumerate(path):
                 for i, st in enumerate(f.stmts(b)):
                     if st['k'] == 'assign' and st['p']['l'] == 1 and st['p']['pr'] and st['p']['pr'][0]['k'] == 'deref' and len(st['p']['pr']) == 1:
                         val = f.expr_rvalue(st['r'], b, i)
+                        if peel(val)[0] == 'phi' and st['r']['k'] == 'use':
+                            val = f.expr_operand_on_path(st['r']['o'], path, idx, i)   # the value assigned on this very path
             if none:
                 ctx.check(val is not None and peel(val)[0] == 'arg', 'add-first', 'adding to RuntimeLimit::None yields the new limit', f.where_path(path), show(val) if val else None)
             else:
                 v = peel(val) if val else None
-                ok = v is not None and v[0] == 'agg' and v[1].endswith('RuntimeLimit::CombinedOr') and any(x[0] == 'arg' and x[2] == 'limit' for x in walk(v[2][1]))
+                ok = v is not None and v[0] == 'agg' and v[1].endswith('RuntimeLimit::CombinedOr') and any(x[0] == 'arg' and x[1] == 2 for x in walk(v[2][1]))
                 ctx.check(ok, 'add-or', 'adding to an existing limit yields CombinedOr(existing, new)', f.where_path(path), show(v)[:200] if v else None)
         ctx.floor('paths of RuntimeLimit::add', n, 2)
 
